@@ -2031,3 +2031,199 @@ Proof.
     rewrite filter_filter_imp by assumption. rewrite opts_of_drop. fold (not_code 82).
     apply filter_filter_imp. intros o H. apply andb_true_iff in H. tauto.
 Qed.
+
+(* ================================================================== IPv6/UDP header fields *)
+Definition frame6_fields (f s16 d16 : bytes) (sp dp : N) : Prop :=
+  firstn 4 f = [96; 0; 0; 0] /\ firstn 2 (skipn 6 f) = [17; 64] /\
+  firstn 16 (skipn 8 f) = s16 /\ firstn 16 (skipn 24 f) = d16 /\
+  firstn 2 (skipn 40 f) = put16 sp /\ firstn 2 (skipn 42 f) = put16 dp.
+Lemma build_ipv6_udp_frame_fields : forall src dst sp dp payload s16 d16 f,
+  to16 src = Some s16 -> to16 dst = Some d16 -> ip_ok src -> ip_ok dst ->
+  build_ipv6_udp_frame src dst sp dp payload = Ok (Some f) -> frame6_fields f s16 d16 sp dp.
+Proof.
+  intros src dst sp dp payload s16 d16 f Hs Hd Os Od H.
+  destruct (to16_some _ _ Hs Os) as [Ls _]. destruct (to16_some _ _ Hd Od) as [Ld _].
+  unfold build_ipv6_udp_frame in H. rewrite Hs, Hd in H.
+  destruct (udp6_csum _ _ _) as [uc| | |]; cbn [rbind] in H; try discriminate.
+  assert (E : f = ip6_header (8 + blen payload) s16 d16 ++ udp_header sp dp (8 + blen payload) uc ++ payload) by congruence.
+  subst f. cells16 s16 Ls. cells16 d16 Ld. unfold frame6_fields, ip6_header, udp_header, put16. cbn [app firstn skipn]. repeat split.
+Qed.
+
+(* ================================================================== DHCPv6 reply, field level *)
+Lemma last_opt_app : forall c a b, last_opt c (a ++ b) = match last_opt c b with Some x => Some x | None => last_opt c a end.
+Proof.
+  intros c a b. unfold last_opt. rewrite filter_app, rev_app_distr.
+  destruct (rev (filter (fun o => fst o =? c) b)) as [|x r]; cbn [app]; reflexivity.
+Qed.
+Definition raw6_ok (o : N * bytes) : Prop := raw_option6_valid o = true /\ fst o < 65536.
+Lemma raw6_none : forall extras c, Forall raw6_ok extras -> In c [1; 2; 3; 13; 23; 25] ->
+  filter (fun o => fst o =? c) extras = [].
+Proof.
+  intros extras c H Hc. induction extras as [|[x d] r IH]; [reflexivity|]. inversion H as [|? ? [Hv _] Hr]; subst. cbn [filter fst].
+  unfold raw_option6_valid in Hv. cbn [fst snd] in Hv. apply andb_true_iff in Hv. destruct Hv as [H1 _].
+  apply negb_true_iff in H1. cbn [existsb] in H1. repeat (apply orb_false_iff in H1; destruct H1 as [? H1]).
+  repeat match goal with E : (_ =? _) = false |- _ => apply N.eqb_neq in E end.
+  replace (x =? c) with false; [apply IH; assumption|]. symmetry. apply N.eqb_neq. cbn [In] in Hc.
+  repeat (destruct Hc as [<-|Hc]; [congruence|]). contradiction.
+Qed.
+Lemma raw6_opt_ok : forall extras, Forall raw6_ok extras -> Forall opt6_ok extras.
+Proof.
+  intros extras H. induction extras as [|[x d] r IH]; [constructor|]. inversion H as [|? ? [Hv Hc] Hr]; subst. constructor; [|apply IH; assumption].
+  unfold raw_option6_valid in Hv. apply andb_true_iff in Hv. destruct Hv as [_ H2]. apply N.leb_le in H2. cbn [fst snd] in *. split; cbn [fst snd]; lia.
+Qed.
+Lemma be_num4 : forall a b c d rest, be_num (firstn 4 (a :: b :: c :: d :: rest)) = ((a * 256 + b) * 256 + c) * 256 + d.
+Proof. intros. unfold be_num. cbn [firstn fold_left]. lia. Qed.
+
+Definition ia_view (iaid t1 t2 : N) (addr : bytes) (plen pref valid : N) : parsed_ia :=
+  {| p_iaid := iaid; p_t1 := t1; p_t2 := t2; p_addr := Some addr; p_plen := plen; p_pref := pref; p_valid := valid |}.
+
+Lemma be_num_put32_app : forall n rest, n < 4294967296 -> be_num (firstn 4 (put32 n ++ rest)) = n.
+Proof. intros. rewrite firstn_exact by reflexivity. apply be_num_put32. assumption. Qed.
+Lemma ip16_field_id : forall addr, length addr = 16%nat -> ip16_field (Some addr) = addr.
+Proof.
+  intros addr La. unfold ip16_field, to16. destruct (Nat.eqb_spec (length addr) 4); [lia|]. rewrite La. cbn [Nat.eqb field].
+  apply firstn_exact. assumption.
+Qed.
+Lemma enc6_single : forall c d, enc6 [(c, d)] = opt6 c d.
+Proof. intros. unfold enc6. cbn [map concat fst snd]. apply app_nil_r. Qed.
+
+Lemma parse_iana_payload : forall iaid t1 t2 addr pref valid, iaid < 4294967296 -> t1 < 4294967296 -> t2 < 4294967296 ->
+  pref < 4294967296 -> valid < 4294967296 -> length addr = 16%nat ->
+  parse_ia 5 24 false (iana_payload {| na_iaid := iaid; na_t1 := t1; na_t2 := t2; na_addr := Some addr; na_pref := pref; na_valid := valid |})
+  = Some (ia_view iaid t1 t2 addr 0 pref valid).
+Proof.
+  intros iaid t1 t2 addr pref valid Hi H1 H2 Hp Hv La. unfold iana_payload. cbn [na_iaid na_t1 na_t2 na_addr na_pref na_valid].
+  rewrite ip16_field_id by assumption. set (body := addr ++ put32 pref ++ put32 valid).
+  assert (Lb : length body = 24%nat) by (subst body; rewrite !app_length, La; reflexivity).
+  assert (Eo : put16 5 ++ put16 24 ++ body = enc6 [(5, body)]).
+  { rewrite enc6_single. unfold opt6, blen. rewrite Lb. reflexivity. }
+  rewrite Eo. set (P := put32 iaid ++ put32 t1 ++ put32 t2 ++ enc6 [(5, body)]).
+  assert (LP : (12 <= length P)%nat) by (subst P; rewrite !app_length; cbn [length put32]; lia).
+  unfold parse_ia. destruct (Nat.ltb_spec (length P) 12); [lia|].
+  assert (Es : skipn 12 P = enc6 [(5, body)]).
+  { subst P. replace (put32 iaid ++ put32 t1 ++ put32 t2 ++ enc6 [(5, body)]) with ((put32 iaid ++ put32 t1 ++ put32 t2) ++ enc6 [(5, body)])
+      by (rewrite <- !app_assoc; reflexivity). apply skipn_exact. reflexivity. }
+  rewrite Es, tlv6_all_enc6 by (constructor; [split; cbn [fst snd]; unfold blen; rewrite ?Lb; lia|constructor]).
+  cbn [fold_left fst snd]. rewrite Lb. cbn [N.eqb Pos.eqb Nat.leb andb].
+  cbn [p_iaid p_t1 p_t2]. unfold ia_view. f_equal.
+  assert (E0 : be_num (firstn 4 P) = iaid) by (subst P; apply be_num_put32_app; assumption).
+  assert (E1 : be_num (firstn 4 (skipn 4 P)) = t1).
+  { subst P. rewrite (skipn_exact (put32 iaid)) by reflexivity. apply be_num_put32_app. assumption. }
+  assert (E2 : be_num (firstn 4 (skipn 8 P)) = t2).
+  { subst P. replace (put32 iaid ++ put32 t1 ++ put32 t2 ++ enc6 [(5, body)]) with ((put32 iaid ++ put32 t1) ++ put32 t2 ++ enc6 [(5, body)])
+      by (rewrite <- !app_assoc; reflexivity). rewrite skipn_exact by reflexivity. apply be_num_put32_app. assumption. }
+  rewrite E0, E1, E2. subst body.
+  rewrite firstn_exact by assumption. rewrite (skipn_exact addr) by assumption.
+  rewrite be_num_put32_app by assumption.
+  replace (addr ++ put32 pref ++ put32 valid) with ((addr ++ put32 pref) ++ put32 valid) by (rewrite <- app_assoc; reflexivity).
+  rewrite skipn_exact by (rewrite app_length, La; reflexivity).
+  rewrite <- (app_nil_r (put32 valid)). rewrite be_num_put32_app by assumption. reflexivity.
+Qed.
+
+Lemma parse_iapd_payload : forall iaid t1 t2 addr plen pref valid, iaid < 4294967296 -> t1 < 4294967296 -> t2 < 4294967296 ->
+  pref < 4294967296 -> valid < 4294967296 -> plen < 256 -> length addr = 16%nat ->
+  parse_ia 26 25 true (iapd_payload {| pd_iaid := iaid; pd_t1 := t1; pd_t2 := t2; pd_plen := plen; pd_prefix := Some addr;
+                                       pd_pref := pref; pd_valid := valid |})
+  = Some (ia_view iaid t1 t2 addr plen pref valid).
+Proof.
+  intros iaid t1 t2 addr plen pref valid Hi H1 H2 Hp Hv Hl La. unfold iapd_payload.
+  cbn [pd_iaid pd_t1 pd_t2 pd_plen pd_prefix pd_pref pd_valid].
+  rewrite ip16_field_id by assumption. replace (plen mod 256) with plen by lia.
+  set (body := put32 pref ++ put32 valid ++ [plen] ++ addr).
+  assert (Lb : length body = 25%nat) by (subst body; rewrite !app_length, La; reflexivity).
+  assert (Eo : put16 26 ++ put16 25 ++ body = enc6 [(26, body)]).
+  { rewrite enc6_single. unfold opt6, blen. rewrite Lb. reflexivity. }
+  rewrite Eo. set (P := put32 iaid ++ put32 t1 ++ put32 t2 ++ enc6 [(26, body)]).
+  assert (LP : (12 <= length P)%nat) by (subst P; rewrite !app_length; cbn [length put32]; lia).
+  unfold parse_ia. destruct (Nat.ltb_spec (length P) 12); [lia|].
+  assert (Es : skipn 12 P = enc6 [(26, body)]).
+  { subst P. replace (put32 iaid ++ put32 t1 ++ put32 t2 ++ enc6 [(26, body)]) with ((put32 iaid ++ put32 t1 ++ put32 t2) ++ enc6 [(26, body)])
+      by (rewrite <- !app_assoc; reflexivity). apply skipn_exact. reflexivity. }
+  rewrite Es, tlv6_all_enc6 by (constructor; [split; cbn [fst snd]; unfold blen; rewrite ?Lb; lia|constructor]).
+  cbn [fold_left fst snd]. rewrite Lb. cbn [N.eqb Pos.eqb Nat.leb andb].
+  cbn [p_iaid p_t1 p_t2]. unfold ia_view. f_equal.
+  assert (E0 : be_num (firstn 4 P) = iaid) by (subst P; apply be_num_put32_app; assumption).
+  assert (E1 : be_num (firstn 4 (skipn 4 P)) = t1).
+  { subst P. rewrite (skipn_exact (put32 iaid)) by reflexivity. apply be_num_put32_app. assumption. }
+  assert (E2 : be_num (firstn 4 (skipn 8 P)) = t2).
+  { subst P. replace (put32 iaid ++ put32 t1 ++ put32 t2 ++ enc6 [(26, body)]) with ((put32 iaid ++ put32 t1) ++ put32 t2 ++ enc6 [(26, body)])
+      by (rewrite <- !app_assoc; reflexivity). rewrite skipn_exact by reflexivity. apply be_num_put32_app. assumption. }
+  rewrite E0, E1, E2.
+  assert (A1 : firstn 16 (skipn 9 body) = addr).
+  { subst body. replace (put32 pref ++ put32 valid ++ [plen] ++ addr) with ((put32 pref ++ put32 valid ++ [plen]) ++ addr)
+      by (rewrite <- !app_assoc; reflexivity). rewrite skipn_exact by reflexivity. rewrite <- La. apply firstn_all. }
+  assert (A2 : nth 8 body 0 = plen).
+  { subst body. replace (put32 pref ++ put32 valid ++ [plen] ++ addr) with ((put32 pref ++ put32 valid) ++ [plen] ++ addr)
+      by (rewrite <- !app_assoc; reflexivity). rewrite app_nth2 by (rewrite app_length; cbn [length put32]; lia). reflexivity. }
+  assert (A3 : be_num (firstn 4 body) = pref) by (subst body; apply be_num_put32_app; assumption).
+  assert (A4 : be_num (firstn 4 (skipn 4 body)) = valid).
+  { subst body. rewrite (skipn_exact (put32 pref)) by reflexivity. apply be_num_put32_app. assumption. }
+  rewrite A1, A2, A3, A4. reflexivity.
+Qed.
+
+Lemma chunks16_concat : forall (l : list bytes), Forall (fun a => length a = 16%nat) l ->
+  forall f, (length l <= f)%nat -> chunks16 f (concat l) = l.
+Proof.
+  induction l as [|a r IH]; intros H f Hf.
+  - destruct f; reflexivity.
+  - inversion H as [|? ? La Hr]; subst. destruct f; [cbn in Hf; lia|]. cbn [concat chunks16].
+    destruct (Nat.ltb_spec (length (a ++ concat r)) 16); [rewrite app_length in *; lia|].
+    rewrite firstn_exact, skipn_exact by assumption. rewrite IH by (try assumption; cbn in Hf; lia). reflexivity.
+Qed.
+
+(* buildResponse of the local DHCPv6 server, re-parsed with the model of dhcp6.ParseMessage: every field comes back *)
+Lemma response6_fields : forall ty txid client server iana pd dns extras,
+  ty < 256 -> length txid = 3%nat -> blen client < 65536 -> blen server < 65536 ->
+  match iana with Some (iaid, addr, pref, valid) => iaid < 4294967296 /\ pref < 4294967296 /\ valid < 4294967296 /\ length addr = 16%nat | None => True end ->
+  match pd with Some (iaid, prefix, ones, pref, valid) => iaid < 4294967296 /\ pref < 4294967296 /\ valid < 4294967296 /\ length prefix = 16%nat /\ ones <= 128 | None => True end ->
+  Forall (fun d => exists a, d = Some a /\ length a = 16%nat) dns -> (length dns < 4096)%nat -> Forall raw6_ok extras ->
+  exists q, parse_message6 (build_response6 ty txid client server iana pd dns extras) = Some q /\
+    q_type q = ty /\ q_txid q = txid /\ q_client q = Some client /\ q_server q = Some server /\
+    q_iana q = match iana with Some (iaid, addr, pref, valid) => Some (ia_view iaid (pref / 2) (pref * 4 / 5) addr 0 pref valid) | None => None end /\
+    q_iapd q = match pd with Some (iaid, prefix, ones, pref, valid) => Some (ia_view iaid (pref / 2) (pref * 4 / 5) prefix ones pref valid) | None => None end /\
+    q_dns q = map opt_bytes dns /\ q_status q = None.
+Proof.
+  intros ty txid client server iana pd dns extras Hty Ltx Hcl Hsv Hia Hpd Hdns Ldns Hex.
+  unfold build_response6. set (r := {| r_type := ty |}).
+  assert (Edns : concat (map ip16_field dns) = concat (map opt_bytes dns) /\ Forall (fun a => length a = 16%nat) (map opt_bytes dns)).
+  { clear - Hdns. induction dns as [|d q IH]; [split; constructor|]. inversion Hdns as [|? ? [a [-> La]] Hq]; subst. destruct (IH Hq) as [E F].
+    cbn [map concat opt_bytes]. rewrite ip16_field_id by assumption. rewrite E. split; [reflexivity|constructor; assumption]. }
+  destruct Edns as [Edns Fdns].
+  assert (Ldd : length (concat (map opt_bytes dns)) = (16 * length dns)%nat).
+  { clear - Fdns. induction dns as [|d q IH]; [reflexivity|]. inversion Fdns; subst. cbn [map concat length]. rewrite app_length, IH by assumption. lia. }
+  assert (Hok : Forall opt6_ok (options6 r)).
+  { unfold options6. subst r. cbn [r_client r_server r_iana r_iapd r_dns r_status r_extras].
+    repeat (apply Forall_app; split); try (apply raw6_opt_ok; assumption).
+    - repeat constructor; cbn [fst snd]; lia.
+    - destruct iana as [[[[iaid addr] pref] valid]|]; [|constructor]. cbn [has_addr na_addr]. repeat constructor; cbn [fst snd]; try lia.
+      unfold blen, iana_payload. rewrite !app_length. unfold ip16_field. rewrite field_length. cbn [length put32 put16]. lia.
+    - destruct pd as [[[[[iaid prefix] ones] pref] valid]|]; [|constructor]. cbn [has_prefix pd_prefix]. repeat constructor; cbn [fst snd]; try lia.
+      unfold blen, iapd_payload. rewrite !app_length. unfold ip16_field. rewrite field_length. cbn [length put32 put16]. lia.
+    - destruct dns; [constructor|]. repeat constructor; cbn [fst snd]; try lia. rewrite Edns. unfold blen. rewrite Ldd. lia.
+    - constructor. }
+  destruct (dhcp6_roundtrip r Ltx Hty Hok) as [R0 [R1 R2]].
+  assert (Ll : (4 <= length (serialize6 r))%nat).
+  { rewrite serialize6_shape, !app_length. rewrite firstn_length, app_length. cbn [length zeros repeat]. lia. }
+  unfold parse_message6. destruct (Nat.ltb_spec (length (serialize6 r)) 4); [lia|].
+  eexists. split; [reflexivity|]. unfold parse_options6. rewrite R2. cbn [q_type q_txid q_client q_server q_iana q_iapd q_dns q_status].
+  split; [exact R0|]. split; [exact R1|].
+  assert (Fx : forall c, In c [1; 2; 3; 13; 23; 25] -> filter (fun o : N * bytes => fst o =? c) extras = []) by (intros; apply raw6_none; assumption).
+  assert (Lx : forall c, In c [1; 2; 3; 13; 23; 25] -> last_opt c extras = None) by (intros c Hc; unfold last_opt; rewrite (Fx c Hc); reflexivity).
+  assert (F13 : filter (fun o : N * bytes => (fst o =? 13) && (2 <=? length (snd o))%nat)%bool extras = []).
+  { pose proof (Fx 13 ltac:(cbn; tauto)) as F. clear - F. induction extras as [|o q IH]; [reflexivity|]. cbn [filter] in *.
+    destruct (fst o =? 13); [discriminate|]. cbn [andb]. apply IH. exact F. }
+  assert (Edq : dns <> [] -> chunks16 (length (concat (map ip16_field dns))) (concat (map ip16_field dns)) = map opt_bytes dns).
+  { intros _. rewrite Edns. apply chunks16_concat; [assumption|]. rewrite Ldd, map_length. unfold bytes in *. lia. }
+  unfold options6. subst r. cbn [r_client r_server r_iana r_iapd r_dns r_status r_extras].
+  destruct iana as [[[[iaid addr] pref] valid]|]; destruct pd as [[[[[iaid' prefix] ones] pref'] valid']|];
+    (destruct dns as [|d0 dr] eqn:Ed; [|rewrite <- Ed in *]);
+    cbn [has_addr has_prefix na_addr pd_prefix app];
+    rewrite ?last_opt_app, ?filter_app, ?F13, ?(Lx 1), ?(Lx 2), ?(Lx 3), ?(Lx 25), ?(Lx 23) by (cbn; tauto);
+    try (destruct dns; [discriminate Ed|]);
+    unfold last_opt; cbn [filter fst snd rev app bind_opt N.eqb Pos.eqb andb]; unfold bytes in *;
+    rewrite ?(Fx 1), ?(Fx 2), ?(Fx 3), ?(Fx 23), ?(Fx 25), ?F13 by (cbn; tauto); cbn [rev app bind_opt snd];
+    repeat split;
+    try (destruct Hia as [Hi [Hp [Hv La]]]; apply parse_iana_payload; try assumption; lia);
+    try (destruct Hpd as (Hi' & Hp' & Hv' & La' & Ho); destruct (N.leb_spec ones 128); [|lia]; apply parse_iapd_payload; try assumption; lia);
+    try (apply Edq; discriminate).
+Qed.
